@@ -18,7 +18,8 @@ PROP = {
                   "missing file. After each save the content is the new version and no temporary file survives. "
                   "Per file kind a traced child (strace) shows that every rename onto the destination is preceded by "
                   "an fsync of the renamed file after its last write and that the destination is never opened for "
-                  "writing. Reader goroutines re-read the path during the saves and must only ever see saved versions.",
+                  "writing. Reader goroutines re-read the path during the saves and must only ever see saved versions."
+                  " Overlapping stores of the lease database (2-4 writers; differential against undisturbed stores) and overlapping configuration saves (savers mark both ends of the file; a judging reader) are run under the same inotify oracle.",
     "level_note": "Crash model: rename is atomic, data not fsynced may be lost or partial; the kernel and the file "
                   "system are trusted (no power is cut). inotify events are queued inside the causing syscall, so the "
                   "history is complete and schedule-independent. Lease stores are exercised at writeDB (dbStore only "
